@@ -300,6 +300,19 @@ class CustomFencedCode(block.FencedCode):
         )
 
 
+class CustomFootnoteDef(footnote.FootnoteDef):
+    """
+    Footnote definition whose label cannot span lines.
+
+    Marko's pattern `\\[\\^([^\\]]+)\\]:` lets the label contain a newline. The matched text,
+    newline included, then becomes the line prefix of the definition, which no line can ever
+    match: the block parser makes no progress and never returns (`[^` + newline + `fn]: x`
+    hangs). GFM footnote labels are single-line.
+    """
+
+    pattern: re.Pattern[str] = re.compile(r" {,3}\[\^([^\]\n]+)\]:[^\n\S]*(?=\S| {4})")
+
+
 class CustomParser(Parser):
     def __init__(self) -> None:
         super().__init__()
@@ -741,6 +754,9 @@ class MarkdownNormalizer(Renderer):
         """Render an inline footnote reference like [^label]."""
         return f"[^{element.label}]"
 
+    def render_custom_footnote_def(self, element: CustomFootnoteDef) -> str:
+        return self.render_footnote_def(element)
+
     def render_footnote_def(self, element: footnote.FootnoteDef) -> str:
         """
         Render a GFM footnote definition, handling content wrapping.
@@ -918,6 +934,8 @@ def flowmark_markdown(
             # Add GFM footnote support.
             footnote_ext = footnote.make_extension()
             for e in footnote_ext.elements:
+                if e is footnote.FootnoteDef:
+                    e = CustomFootnoteDef
                 assert (
                     e not in custom_parser.block_elements and e not in custom_parser.inline_elements
                 )
